@@ -43,6 +43,7 @@ func runC13(r *hk.Run) {
 	h1Pairs(r, rng, r.Scale(300, 3000))
 	h2Pairs(r, rng, r.Scale(130, 1200))
 	h3Pairs(r, rng, r.Scale(100, 800))
+	h2AbortPairs(r, rng, r.Scale(40, 400))
 }
 
 // ---------- (a) line cases ----------
@@ -461,6 +462,20 @@ type partsObs struct {
 	RespBody      []byte
 	RespEOF       bool // the body reader reported io.EOF (CRLF separator on Output)
 	NoResp        bool // no response body reader was handed to the caller
+	Warm          bool // the warm-up exchange of the run: seen by the client-level dumper and by its own
+	// request-level dumper (level 2), not by the main request's dumper (level 1)
+}
+
+// warmOpt: the request-level dumper of the warm-up request (EnableDumpTo: everything on, one writer)
+var warmOpt = optSpec{Set: [7]bool{true}, On: [4]bool{true, true, true, true}}
+
+// levelsFor: which dumpers see exchange x: index 0 client level, 1 the main request's dumper, 2 the
+// warm-up request's dumper
+func levelsFor(cfg dumpCfg, x partsObs) []*optSpec {
+	if x.Warm {
+		return []*optSpec{cfg.Client, nil, &warmOpt}
+	}
+	return []*optSpec{cfg.Client, cfg.Request, nil}
 }
 
 func expectedContents(cfg dumpCfg, xs []partsObs) map[[2]int][]byte {
@@ -472,7 +487,7 @@ func expectedContents(cfg dumpCfg, xs []partsObs) map[[2]int][]byte {
 		}
 	}
 	for _, x := range xs {
-		for level, o := range []*optSpec{cfg.Client, cfg.Request} {
+		for level, o := range levelsFor(cfg, x) {
 			if o == nil {
 				continue
 			}
@@ -489,7 +504,7 @@ func expectedContents(cfg dumpCfg, xs []partsObs) map[[2]int][]byte {
 				add(level, o.route(level, 1), x.ReqBodyEnd)
 			}
 		}
-		for level, o := range []*optSpec{cfg.Client, cfg.Request} {
+		for level, o := range levelsFor(cfg, x) {
 			if o == nil {
 				continue
 			}
@@ -497,7 +512,7 @@ func expectedContents(cfg dumpCfg, xs []partsObs) map[[2]int][]byte {
 				add(level, o.route(level, 2), x.RespHeader)
 			}
 		}
-		for level, o := range []*optSpec{cfg.Client, cfg.Request} {
+		for level, o := range levelsFor(cfg, x) {
 			if o == nil {
 				continue
 			}
@@ -516,7 +531,7 @@ func writerName(id int) string {
 	if id == reqBufID {
 		return "request-buffer"
 	}
-	return []string{"client.", "request."}[(id-10)/10] + slotNames[id%10]
+	return []string{"client.", "request.", "warmup-request."}[(id-10)/10] + slotNames[id%10]
 }
 
 // compareContents reports the first writer whose content is not what the property demands.
@@ -625,17 +640,44 @@ func keyOf(v interface{}) string {
 	return string(b)
 }
 
-func coqObs(m map[[2]int][]byte, pl *pool) string {
+func coqObs(m map[[2]int][]byte, pl *pool) string { return coqObsLevel(m, pl, -1, 0) }
+
+// coqObsLevel: only the writers of one dumper (only >= 0), numbered as dumper index as
+func coqObsLevel(m map[[2]int][]byte, pl *pool, only, as int) string {
 	var ks [][2]int
 	for k := range m {
-		ks = append(ks, k)
+		if only < 0 || k[0] == only {
+			ks = append(ks, k)
+		}
 	}
 	sort.Slice(ks, func(i, j int) bool { return ks[i][0]*100+ks[i][1] < ks[j][0]*100+ks[j][1] })
 	var o []string
 	for _, k := range ks {
-		o = append(o, fmt.Sprintf("(%d, %d%%N, %s)", k[0], k[1], pl.enc(m[k])))
+		lv := k[0]
+		if only >= 0 {
+			lv = as
+		}
+		o = append(o, fmt.Sprintf("(%d, %d%%N, %s)", lv, k[1], pl.enc(m[k])))
 	}
 	return hk.CoqList(o)
+}
+
+// emitExch adds the Coq case(s) of one run.  Without warm-up: one ExchCase with both dumpers.  With
+// a warm-up exchange the dumpers see different exchange lists, so each dumper gets its own case
+// (dumpers do not see each other: C13_routing_exact): client level [warm-up; main...], the main
+// request's dumper [main...], the warm-up request's dumper [warm-up].
+func emitExch(r *hk.Run, cfg dumpCfg, coqX []string, warm bool, sink map[[2]int][]byte, pl *pool, desc interface{}, key string, nt bool) {
+	if !warm || len(coqX) == 0 {
+		r.Add(hk.Case{Coq: pl.wrap(fmt.Sprintf("ExchCase %s %s %s %s", coqOptOpt(cfg.Client, 0), coqOptOpt(cfg.Request, 1), hk.CoqList(coqX), coqObs(sink, pl))), Desc: desc}, key, nt)
+		return
+	}
+	if cfg.Client != nil {
+		r.Add(hk.Case{Coq: pl.wrap(fmt.Sprintf("ExchCase %s None %s %s", coqOptOpt(cfg.Client, 0), hk.CoqList(coqX), coqObsLevel(sink, pl, 0, 0))), Desc: desc}, key+"|client", nt)
+	}
+	if cfg.Request != nil {
+		r.Add(hk.Case{Coq: pl.wrap(fmt.Sprintf("ExchCase None %s %s %s", coqOptOpt(cfg.Request, 1), hk.CoqList(coqX[1:]), coqObsLevel(sink, pl, 1, 1))), Desc: desc}, key+"|request", nt)
+	}
+	r.Add(hk.Case{Coq: pl.wrap(fmt.Sprintf("ExchCase None %s %s %s", coqOptOpt(&warmOpt, 2), hk.CoqList(coqX[:1]), coqObsLevel(sink, pl, 2, 1))), Desc: desc}, key+"|warmup", nt)
 }
 
 // pool: per-case dictionary of byte strings that occur several times in one case (the header
